@@ -282,6 +282,12 @@ EnteredScopes(s) == (IF BypassedScope(s, 0) THEN {} ELSE {0}) \cup {b \in s.ente
 C07_DeferredOnce(s, e) == (e.ev = "WaitRet" /\ Live(s)) =>
     \A sc \in 0..NB(s) : HasGroup(s, sc, "deferred") =>
         s.grpRuns[Grp(sc, "deferred")] = (IF sc \in EnteredScopes(s) THEN 1 ELSE 0)
+\* "... after everything else in that scope": when a deferred check is invoked nothing else of its scope is in flight
+\* any more (runs of continuous checks excepted, as for C01_DeferredLast) and every sequence that was started has ended
+C07_DeferredAfterAll(s, e) == (IsP(e) /\ Running(s) /\ D(s, e.obj).k = "cact" /\ D(s, e.obj).g = "deferred") =>
+    LET d == D(s, e.obj) IN
+    /\ \A x \in Infl(s) : InScope(D(s, x), d.b) => AllowedWithDeferred(D(s, x), d.b)
+    /\ \A q \in s.seqStarted : InScope(D(s, q), d.b) => Terminal(s.dur[q].st)
 C07_DeferredFails(s, e) ==
     /\ (e.ev = "WaitRet" /\ Live(s) /\ ~BypassedScope(s, 0)) => (PlanGroupFailed(s, "deferred") => SnapOf(e.snap)["p"].st = FA)
     /\ (IsW(e) /\ Running(s) /\ D(s, e.obj).k = "blk" /\ e.st = CO /\ ~BypassedScope(s, D(s, e.obj).b)) =>
@@ -306,6 +312,12 @@ C08_TerminalBeforeRelease(s, e) ==
     /\ (s.waited # <<>> /\ IsW(e)) => FALSE
 C08_Monotone(s, e) == (e.ev = "R" /\ D(s, e.obj).k \in {"blk", "seq", "act"}) =>
     (s.rterm[e.obj] # "none" => e.st = s.rterm[e.obj])
+\* the same for the scopes: nothing of a block (or plan) is invoked - not even its bypass checks - before the block
+\* (the plan) has durably been started (it may already be durably Failed: deferred checks and the last runs of
+\* continuous checks follow a failed post-check)
+C08_ScopeRunningBeforeInvoke(s, e) == (IsP(e) /\ Running(s)) =>
+    /\ s.dur["p"].st # NS
+    /\ D(s, e.obj).b >= 1 => s.dur[ScopeName(D(s, e.obj).b)].st # NS
 \* fail-stop: a state change that could not be made durable is never acted on. The scenarios that inject a write
 \* failure are strictly sequential (one goroutine writes), so nothing at all may follow the failed write in that
 \* process lifetime: no plugin invocation, no further write, no released waiter. (The code ends the process.)
@@ -378,8 +390,8 @@ ClauseNames == {
     "C04_FailedCheckFailsPlan",
     "C05_Bound", "C05_StopOnFinal", "C05_OneAttemptPerCall", "C05_Recorded", "C05_Overrun", "C05_AttemptIsItsCall", "C08_FailStop",
     "C06_BypassSkips", "C06_BypassFailRuns", "C06_PreFailBlocks", "C06_ContInitialFail",
-    "C07_ContKeepsRunning", "C07_ContFailureFails", "C07_DeferredOnce", "C07_DeferredFails", "C07_DeferredNotAgain",
-    "C08_RunningBeforeInvoke", "C08_AttemptBeforeNext", "C08_TerminalBeforeRelease", "C08_Monotone",
+    "C07_ContKeepsRunning", "C07_ContFailureFails", "C07_DeferredOnce", "C07_DeferredFails", "C07_DeferredNotAgain", "C07_DeferredAfterAll",
+    "C08_RunningBeforeInvoke", "C08_ScopeRunningBeforeInvoke", "C08_AttemptBeforeNext", "C08_TerminalBeforeRelease", "C08_Monotone",
     "C09_NoRedoAction", "C09_NoRedoFinished", "C09_OnlyInFlight",
     "C10_Terminates", "C10_Terminal", "C10_NothingRunning", "C10_Quiescent", "C10_Stable", "C10_Consistent", "C10_Times",
     "C10_DeferredRan", "C10_SameOutcome",
@@ -405,7 +417,8 @@ Holds(c, s, e) ==
       [] c = "C06_PreFailBlocks" -> C06_PreFailBlocks(s, e) [] c = "C06_ContInitialFail" -> C06_ContInitialFail(s, e)
       [] c = "C07_ContKeepsRunning" -> C07_ContKeepsRunning(s, e) [] c = "C07_ContFailureFails" -> C07_ContFailureFails(s, e)
       [] c = "C07_DeferredOnce" -> C07_DeferredOnce(s, e) [] c = "C07_DeferredFails" -> C07_DeferredFails(s, e)
-      [] c = "C07_DeferredNotAgain" -> C07_DeferredNotAgain(s, e)
+      [] c = "C07_DeferredNotAgain" -> C07_DeferredNotAgain(s, e) [] c = "C07_DeferredAfterAll" -> C07_DeferredAfterAll(s, e)
+      [] c = "C08_ScopeRunningBeforeInvoke" -> C08_ScopeRunningBeforeInvoke(s, e)
       [] c = "C08_RunningBeforeInvoke" -> C08_RunningBeforeInvoke(s, e) [] c = "C08_AttemptBeforeNext" -> C08_AttemptBeforeNext(s, e)
       [] c = "C08_TerminalBeforeRelease" -> C08_TerminalBeforeRelease(s, e) [] c = "C08_Monotone" -> C08_Monotone(s, e)
       [] c = "C09_NoRedoAction" -> C09_NoRedoAction(s, e) [] c = "C09_NoRedoFinished" -> C09_NoRedoFinished(s, e)
@@ -430,8 +443,8 @@ Violated(s, e) == {c \in ClauseNames : ~Holds(c, s, e)}
 ClausesFor(t) ==
   CASE t = "PStart" -> {"C01_BlockOrder", "C01_ActionOrder", "C01_PreGate", "C01_PostAfterSeqs", "C01_DeferredLast", "C02_Bound", "C02_OneBlock",
                         "C03_AfterFailedBlock", "C04_Quiescent", "C05_Bound", "C05_StopOnFinal", "C06_BypassSkips", "C06_PreFailBlocks",
-                        "C06_ContInitialFail", "C08_RunningBeforeInvoke", "C08_AttemptBeforeNext", "C09_NoRedoAction", "C09_NoRedoFinished",
-                        "C09_OnlyInFlight", "C10_Quiescent", "C11_Untouched", "C11_AgedOut", "C12_AtMostOnce", "C07_DeferredNotAgain", "C08_FailStop"}
+                        "C06_ContInitialFail", "C08_RunningBeforeInvoke", "C08_ScopeRunningBeforeInvoke", "C08_AttemptBeforeNext", "C09_NoRedoAction", "C09_NoRedoFinished",
+                        "C09_OnlyInFlight", "C10_Quiescent", "C11_Untouched", "C11_AgedOut", "C12_AtMostOnce", "C07_DeferredNotAgain", "C07_DeferredAfterAll", "C08_FailStop"}
     [] t = "W" -> {"C07_DeferredFails", "C03_Bound", "C03_StopExact", "C03_BlockVerdict", "C04_Quiescent", "C05_OneAttemptPerCall", "C05_AttemptIsItsCall", "C06_ContInitialFail",
                    "C07_ContFailureFails", "C08_TerminalBeforeRelease", "C08_FailStop", "C10_Quiescent", "C11_Untouched", "C12_AtMostOnce"}
     [] t = "PEnd" -> {"C04_Quiescent", "C05_Overrun"}
